@@ -142,3 +142,14 @@ Fixpoint zlist_eqb (a b : list Z) : bool :=
   | x :: a', y :: b' => (x =? y) && zlist_eqb a' b'
   | _, _ => false
   end.
+
+(* ---- the decisions taken with the predictions (use sites) ---- *)
+(* NetAddr.send_clumped_bundles: one bundle when the prediction is within the UDP limit,
+   otherwise clumps of the default size 8192 *)
+Definition send_clumped_plan (fx : bool) (es : list arg) : res (list (list arg)) :=
+  calc_bndl fx es >>= fun n => if MAX_UDP <? n then clump_bundle fx 8192 es else Ok [es].
+(* NetAddr.sync(elements=es): the limit and the clump size leave room for the '/sync' message,
+   which is appended to every clump *)
+Definition sync_plan (fx : bool) (es : list arg) : res (list (list arg)) :=
+  calc_bndl fx es >>= fun n =>
+  if MAX_UDP - SYNC_SIZE <? n then clump_bundle fx (MAX_UDP - SYNC_SIZE) es else Ok [es].
